@@ -10,7 +10,11 @@ fn still_fails(check: &dyn Check, t: &Trace, env: &Env, key: &str) -> bool {
 }
 
 fn text_of(op: &mut Op) -> Option<&mut TextSpec> {
-    match op { Op::Execute { text, .. } | Op::SessionText { text } => Some(text), _ => None }
+    match op {
+        Op::Execute { text, .. } | Op::SessionText { text } => Some(text),
+        Op::Nested { outer, .. } => text_of(outer),
+        _ => None,
+    }
 }
 
 pub fn shrink(check: &dyn Check, trace: &Trace, env: &Env, key: &str, event: usize, budget_s: f64) -> Trace {
@@ -52,6 +56,44 @@ pub fn shrink(check: &dyn Check, trace: &Trace, env: &Env, key: &str, event: usi
     }
     // 3. remove lines inside all texts
     shrink_lines(check, &mut best, env, key, &over, false);
+    // 3b. nested events: drop inner steps, then the nesting itself
+    for ei in 0..best.events.len() {
+        if over() { break; }
+        while let Op::Nested { inner, .. } = &best.events[ei].op {
+            let n = inner.len();
+            let mut removed = false;
+            for k in 0..n {
+                let mut c = best.clone();
+                if let Op::Nested { inner, .. } = &mut c.events[ei].op { inner.remove(k); }
+                if still_fails(check, &c, env, key) { best = c; removed = true; break; }
+            }
+            if !removed || over() { break; }
+        }
+        if let Op::Nested { outer, inner } = &best.events[ei].op {
+            if inner.is_empty() {
+                let mut c = best.clone();
+                c.events[ei].op = (**outer).clone();
+                if still_fails(check, &c, env, key) { best = c; }
+            } else {
+                // lines of the inner texts
+                let n_inner = inner.len();
+                for k in 0..n_inner {
+                    loop {
+                        if over() { break; }
+                        let len = if let Op::Nested { inner, .. } = &best.events[ei].op { inner[k].text.lines.len() } else { 0 };
+                        if len <= 1 { break; }
+                        let mut progress = false;
+                        for li in 0..len {
+                            let mut c = best.clone();
+                            if let Op::Nested { inner, .. } = &mut c.events[ei].op { inner[k].text.remove_line(li); }
+                            if still_fails(check, &c, env, key) { best = c; progress = true; break; }
+                        }
+                        if !progress { break; }
+                    }
+                }
+            }
+        }
+    }
     // 4. freeze clocks
     for ei in 0..best.events.len() {
         if over() { break; }
